@@ -37,6 +37,12 @@ theorem noHash_summary (sm : Summary) : noHash (summaryOut sm) = true := by
   unfold summaryOut
   split <;> (try split) <;> (try split) <;> simp only [noHash_append, noHash_dec, Bool.and_eq_true, Bool.and_true, Bool.true_and] <;> decide
 
+theorem noHash_testRunOut (i n : Nat) : noHash (testRunOut i n) = true := by
+  unfold testRunOut
+  by_cases h : n > 1
+  · simp only [h, if_true, noHash_append, noHash_dec, Bool.and_true, Bool.true_and, Bool.and_eq_true]; decide
+  · simp only [h, if_false]; rfl
+
 /-- the raw text an event may contribute -/
 def evText : Ev → Option Bytes
   | .print x => some x
@@ -51,6 +57,12 @@ theorem texts_of_msgsOf (s : St) (e : Ev) (h : ∀ x, evText e = some x → noHa
   intro m hm raw hraw
   subst hraw
   cases e with
+  | testRun i n =>
+    simp only [msgsOf] at hm
+    split at hm
+    · have : raw = testRunOut i n := by simpa using hm
+      rw [this]; exact noHash_testRunOut i n
+    · simp at hm
   | testsStarted => simp [msgsOf] at hm
   | groupStarted t => simp [msgsOf] at hm
   | testStarted t => simp only [msgsOf] at hm; split at hm <;> simp at hm
